@@ -560,6 +560,40 @@ func sqlAll(c *corpus, r *rng, tier string, scale int) *inputSet {
 	return s
 }
 
+// wrappedVectors: a vector hidden from some contexts inside a (quoted) attribute value of a
+// decoy tag, preceded and / or followed by an unfinished construct or a tag form that leaves
+// tokenizer flags set.  The verdict of such an input depends on every context being scanned
+// from a clean state: state carried from one context (or one call) to the next shows here.
+func wrappedVectors(emit func(string)) {
+	vectors := []string{"<script>alert(1)</script>", "<iframe>", "<style>x</style>", "<svg/onload=alert(1)>", "<img src=x onerror=alert(1)>",
+		"<a href=javascript:alert(1)>", "<x onclick=alert(1)>", "<!DOCTYPE x>", "<?import x>", "<!--[if x]>", "<b>", "<script src=x>"}
+	wraps := []string{"%s", "<a title=\">%s\">x", "<a title='>%s'>x", "<a title=`>%s`>x", "<a title=>%s>x", "x>%s", "\">%s", "'>%s", "</p >%s", "</p/>%s", "</>%s", "</ br>%s", "</p x=\"y\">%s"}
+	tails := []string{"", "</a", "</", "</a ", "</a/", "<a", "<a ", "<a b", "<a b=", "<a b='", "<a b=\"", "<!--", "<!", "<?", "<%", "<![CDATA[", "&#", "</a>", "</ x>", "</1>"}
+	for _, v := range vectors {
+		for _, w := range wraps {
+			body := fmt.Sprintf(w, v)
+			for _, t := range tails {
+				emit(body + t)
+				if t != "" {
+					emit(t + ">" + body)
+					emit(t + " " + body)
+				}
+			}
+		}
+	}
+	// two flag-setting forms in a row in front of a directly closed tag
+	pre := []string{"</p >", "</p/>", "</>", "</p x=\"y\">", "</ br>", "</1>", "<//>", "<b>", "</b>", "<a b=c>", "<!-- -->", "<a/>"}
+	for _, a := range pre {
+		for _, b := range pre {
+			for _, v := range []string{"<script>", "<iframe>", "<b>", "<style>"} {
+				for _, q := range []string{"", "x>", "\">", "'>"} {
+					emit(q + a + b + v)
+				}
+			}
+		}
+	}
+}
+
 func htmlAll(c *corpus, r *rng, tier string, scale int) *inputSet {
 	s := newInputSet()
 	for _, x := range c.kept {
@@ -573,6 +607,7 @@ func htmlAll(c *corpus, r *rng, tier string, scale int) *inputSet {
 		depth, nrand, nfrag, nmut, ntrunc = 3, 120000*scale, 40000*scale, 80000*scale, 40000
 	}
 	exhaustive(htmlAlphabet, depth, func(x string) { s.add("exhaustive", x) })
+	wrappedVectors(func(x string) { s.add("wrapped-vectors-with-tails", x) })
 	for i := 0; i < nrand; i++ {
 		s.add("random", randomSeq(r, htmlAlphabet, 3, 10))
 	}
